@@ -27,10 +27,10 @@ func newReaderObj(mm *fold.Machine, L *readerLayout, frag bool, checkUTF8 bool, 
 	st.F[L.frame] = frame
 	st.F[L.raw] = fold.Struct{F: []fold.Val{fold.Sym{Name: "Source", NonNil: true}, fold.Int{Lo: 1, Hi: fold.MaxInt64, Name: "N"}}}
 	u := st.F[L.utf8].(fold.Struct)
-	u.F[L.utf8Source] = fold.Sym{Name: "utf8-source", NonNil: true}
-	u.F[L.utf8State] = fold.K(utf8State)
-	u.F[L.utf8Codep] = fold.K(5)
-	u.F[L.utf8Accepted] = fold.Int{Lo: 0, Hi: fold.MaxInt64, Name: "accepted"}
+	uSet(u, L.utf8SourceP, fold.Sym{Name: "utf8-source", NonNil: true})
+	uSet(u, L.utf8StateP, fold.K(utf8State))
+	uSet(u, L.utf8CodepP, fold.K(5))
+	uSet(u, L.utf8AcceptedP, fold.Int{Lo: 0, Hi: fold.MaxInt64, Name: "accepted"})
 	st.F[L.cr] = fold.Nil{}
 	return mm.NewObj("reader", st)
 }
@@ -43,7 +43,7 @@ func readFinal(mm *fold.Machine, recv *fold.Obj, L *readerLayout) readerFinal {
 	ld := func(path ...int) string { return fold.Show(mm.Load(fold.Ref{O: recv, Path: path})) }
 	return readerFinal{
 		rawR: ld(L.raw, 0), rawN: ld(L.raw, 1), frame: ld(L.frame), state: ld(L.state), opCode: ld(L.opCode),
-		utf8Source: ld(L.utf8, L.utf8Source), utf8State: ld(L.utf8, L.utf8State), utf8Accepted: ld(L.utf8, L.utf8Accepted),
+		utf8Source: ld(uPath(L.utf8, L.utf8SourceP)...), utf8State: ld(uPath(L.utf8, L.utf8StateP)...), utf8Accepted: ld(uPath(L.utf8, L.utf8AcceptedP)...),
 	}
 }
 
